@@ -24,7 +24,7 @@ def bound_for(solver, test, g, eps):
 
 def gen_case(rng, i, tier):
     solver = rng.choice(["vi", "vi", "pi", "pi", "semi"])
-    spec = gen.gen_spec(rng, smax=10 if tier == "quick" else 30, kind=rng.choice(["random", "random", "unichain", "periodic"]),
+    spec = gen.gen_spec(rng, smax=10 if tier == "quick" else 30, kind=rng.choice(["random", "random", "unichain", "periodic", "twosink", "twosink", "cost"]),
                         denom=rng.choice([4, 8]), R=rng.choice([1, 10, 1000, 10 ** 6]))
     S = spec_size(spec)
     g = rng.choice(["1/2", "3/4", "7/8", "9/10", "99/100", "15/16"])
@@ -144,7 +144,7 @@ def run(tier, seed):
                 pol = [int(x) for x in di["policy"].split(",")]
                 TV = [oracle.q(t, g, V, s_, pol[s_]) for s_ in range(t.S)]
                 meas = oracle.span(TV, V) if new["test"] == "span" else oracle.maxdiff(TV, V)
-                if not meas < eps * (1 - g) / g:
+                if not meas < eps * (1 - g) / g and di.get("lastevaln") == str(new.get("budget", 100)):
                     key = "pi:reports-convergence-with-exhausted-evaluation-budget"
                     viol.append(f"last evaluation stopped at max_eval_iter={new.get('budget')} with measure {float(meas):.6g} >= threshold")
             res.disagreements.append({"channel": f"C01/bound/{new['solver']}", "case": case, "model": m, "impl": str({k: di[k] for k in ('iter', 'policy')})[:300],
